@@ -230,9 +230,16 @@ def run_config(chk, facts, cfg):
     chk.rule("C01-g2", "T-GUARD: `parse_entry`'s `Blend => unreachable!()` (a confirmed explicit panic of C01-g) stays dead: in every "
                        "caller a comparison of the operator with `Operator::Blend` dominates the call to parse_entry (the test is made "
                        "on every path to it), and the equal edge of such a comparison cannot reach the call")
-    PE = "read_fonts::tables::postscript::dict::parse_entry"
-    callers = [b for b in facts.all_bodies(RF) if any(t.callee == PE for _, t in b.calls())]
-    chk.anchor("C01-g2", "callers of dict::parse_entry", callers)
+    # parse_entry is found by what it is, not by its (private) name: a hand-written function that takes a DICT `Operator` by
+    # value and contains an explicit panic
+    PEs = {b.path for b in facts.all_bodies(RF) if not b.generated and not b.path.startswith("<") and "{closure" not in b.path
+           and any(b.locals[i][0].endswith("postscript::dict::Operator") for i in range(1, b.argc + 1))
+           and any(t.callee.startswith("core::panicking::") for _, t in b.calls())}
+    callers = [b for b in facts.all_bodies(RF) if any(t.callee in PEs for _, t in b.calls())]
+    if PEs:
+        chk.anchor("C01-g2", "callers of dict::parse_entry", callers)
+    else:
+        chk.ob("C01-g2", "no function that takes a DICT Operator contains an explicit panic: nothing to guard", True)
 
     def promoted_variant(b, op):
         # `&Operator::X` passed as a promoted constant -> "X"
@@ -259,7 +266,7 @@ def run_config(chk, facts, cfg):
                 return None
         return None
     for b in callers:
-        pe_blocks = [bb for bb, t in b.calls() if t.callee == PE]
+        pe_blocks = [bb for bb, t in b.calls() if t.callee in PEs]
         cmps = []
         for bb, t in b.calls():
             if t.callee.endswith("dict::Operator as core::cmp::PartialEq>::eq") and len(t.args) == 2:
@@ -293,7 +300,8 @@ def run_config(chk, facts, cfg):
                    detail="parse_entry panics (`unreachable!()`) when it is handed the `blend` operator; the caller no longer tests for "
                           "it on every path to the call (or no longer leaves before the call when it is one): a DICT containing byte "
                           "23 evaluated without a variation store panics")
-    chk.floor("C01-g2", "callers checked", len(callers), 1)
+    if PEs:
+        chk.floor("C01-g2", "callers checked", len(callers), 1)
 
     # ---- C01-f -----------------------------------------------------------------------------------
     chk.rule("C01-f", "T-PURE: read-fonts forbids unsafe code and contains none; font-types/read-fonts have no mutable or "
